@@ -41,6 +41,17 @@ async fn head_follow_delivers_only_the_requested_context() {
     let (_d, sock, store) = server().await;
     let ctx_a = store.append(Frame::builder("xs.context", ZERO_CONTEXT).build()).unwrap().id;
     let ctx_b = store.append(Frame::builder("xs.context", ZERO_CONTEXT).build()).unwrap().id;
+    // no context parameter = the zero context, for the follow part as for the head lookup
+    {
+        let sock2 = sock.clone();
+        let h = tokio::spawn(async move { raw(&sock2, b"GET /head/plain?follow=true HTTP/1.1\r\nhost: x\r\n\r\n", 1500).await });
+        tokio::time::sleep(Duration::from_millis(400)).await;
+        let fa = store.append(Frame::builder("plain", ctx_a).build()).unwrap();
+        let fz = store.append(Frame::builder("plain", ZERO_CONTEXT).build()).unwrap();
+        let body = String::from_utf8_lossy(&h.await.unwrap()).to_string();
+        assert!(body.contains(&fz.id.to_string()), "C13: head-follow without a context parameter delivers the zero context's frame");
+        assert!(!body.contains(&fa.id.to_string()), "C06: head-follow without a context parameter delivered a frame of context A");
+    }
     for with_head in [false, true] {
         let topic = if with_head { "t.with" } else { "t.without" };
         let mut expect = Vec::new();
